@@ -14,6 +14,7 @@ RULE = (
     "multi-bit perturbations confirmed outside the observed code by the reference. A case is distinct by (object id, clause, input digest); "
     "non-trivial = non-zero message / non-codeword perturbation / a structural clause on a constructed object."
     " Added after the seeded-fault rounds: cyclic/BCH codes with ascending and permuted index-list information sets, int64 generator matrices, groups of same-shaped objects wider than 64 columns built in one process (first one judged again at the end), a constructor-argument-reuse unit (same matrix tensor edited in place, second constructor), units grouped by family and (n,k) in one child process."
+    " Round 5: form axis - representatives of every (family, information set) also as a deep copy of a used object, after .double(), after .double().float(), and as a twin loaded through state_dict."
 )
 ASSUMPTIONS = [
     "reference GF(2) arithmetic (vk.oracles.gf2) is trusted after its self-test",
